@@ -202,7 +202,8 @@ class Tracer:
                 if v.get('init') is not None:
                     t = v.get('t') or {}
                     if t.get('k') in ('int', 'bool'):
-                        val = self.val(v['init'])
+                        # identity tests evaluate to false for the generic (non-identity) pair, also when stored in a local first
+                        val = self.val(v['init'], zero_calls=0 if t.get('k') == 'bool' else None)
                         if val is not None:
                             self.env[v['id']] = val
                     elif t.get('k') == 'ref':
